@@ -32,7 +32,7 @@ RULE = ('cases are histories of 4-12 steps over 1-2 private keys with subkeys (P
 TIERS = {"quick": {"runs": 5000, "budget_s": 100}, "thorough": {"runs": 150000, "budget_s": 1500}}
 PROBES = ('x1_fired', 'x1_fired_in_unlock_entry', 'x1_not_reached', 'exit_by_body_exception', 'wrong_passphrase', 'at_rest_flip',
           'at_rest_flip_subkey', 'reprotect_inside_scope', 'add_subkey_inside_scope', 'nested_unlock', 'nested_wrong_passphrase', 'foreign_usage255',
-          'foreign_s2k_simple', 'foreign_s2k_salted', 'foreign_gnu_dummy', 'foreign_mixed', 'export_import_protected', 'copy_key', 'ghost_of_copied_key_checked',
+          'foreign_s2k_simple', 'foreign_s2k_salted', 'foreign_gnu_dummy', 'foreign_mixed', 'export_import_protected', 'copy_key', 'ghost_of_copied_key_checked', 'uidless_protected_key',
           'second_unlock_ok', 'graph_objects_walked', 'different_subkey_passphrase', 'passphrase_bytes', 'rsa', 'dsa', 'ecdsa', 'eddsa')
 
 PASSES = ['hunter2', 'pässwörd ☃', 'x' * 120, 'p w', 'QwertyUiop', 'cafe\u0301 \u1112\u1161\u11ab', ' padded with blanks ', 'tab\tinside\n']
@@ -89,7 +89,8 @@ def generate(rng, tier):
             steps.append({'id': sid, 'op': 'copy_key', 'key': k})
         else:
             steps.append({'id': sid, 'op': 'subkey_other_pass', 'key': k, 'pass': 'another one'})
-    return {'config': {'keys': keys, 's2k_count': rng.choice([0, 16, 16, 96]), 'start_us': 1_600_000_000_000_000}, 'steps': steps}
+    return {'config': {'keys': keys, 's2k_count': rng.choice([0, 16, 16, 96]), 'start_us': 1_600_000_000_000_000,
+                       'uidless_probe': rng.random() < 0.25}, 'steps': steps}
 
 
 def simplify(case):
@@ -277,6 +278,25 @@ def execute(case, ctx):
             K[name] = KeyState(name, obj, _secrets_from_export(bytes(obj)))
         if name in K:
             ctx.probe({1: 'rsa', 17: 'dsa', 19: 'ecdsa', 22: 'eddsa'}.get(int(K[name].obj.key_algorithm), 'rsa'))
+    if cfg.get('uidless_probe'):
+        # a key protected before it has any identity is locked like any other: its first self-certification needs the passphrase too
+        C = pgpy.constants
+        rnd.set_step('build:uidless')
+        bare = world.new_key('ed25519', 'c06uidless')
+        ctx.checked()
+        ctx.probe('uidless_protected_key')
+        try:
+            bare.protect('uidless pw', C.SymmetricKeyAlgorithm.AES128, C.HashAlgorithm.SHA256)
+            forms = [('as protected', bare), ('re-imported', pgpy.PGPKey.from_blob(bytes(bare))[0])]
+        except Exception as e:
+            forms = []
+            ctx.event('uidless', 'protect-raised', type(e).__name__)
+        for what, kobj in forms:
+            try:
+                kobj.add_uid(pgpy.PGPUID.new('Too Early'), usage={C.KeyFlags.Sign, C.KeyFlags.Certify})
+            except Exception:
+                continue
+            ctx.viol('C06:locked-key-acts:add_uid', 'a protected, locked key without identities (%s) performed its first self-certification without the passphrase' % what)
     inj = LineInjector()
     shapes = []
     nontrivial = False
